@@ -18,9 +18,11 @@ import (
 	"fmt"
 	"os"
 	"sort"
+	"strconv"
 	"strings"
 
 	"github.com/compose-spec/compose-go/v2/loader"
+	"github.com/compose-spec/compose-go/v2/template"
 
 	"verifharness/core"
 )
@@ -30,6 +32,9 @@ type pipeArgs struct {
 	SkipDefaults bool     `json:"skip_defaults"`
 	Validate     bool     `json:"validate,omitempty"` // schema.Validate + validation.Validate on
 	Normalize    bool     `json:"normalize,omitempty"` // loader.Normalize on
+	Interpolate  bool              `json:"interpolate,omitempty"` // interpolation on, with Env
+	ResolvePaths bool              `json:"resolve_paths,omitempty"` // paths.ResolveRelativePaths on (working directory = the materialised root)
+	Env          map[string]string `json:"env,omitempty"`
 	Pats         []string `json:"pats,omitempty"`
 }
 
@@ -41,12 +46,15 @@ func init() {
 				SkipDefaults bool              `json:"skip_defaults"`
 				Validate     bool              `json:"validate"`
 				Normalize    bool              `json:"normalize"`
+				Interpolate  bool              `json:"interpolate"`
+				ResolvePaths bool              `json:"resolve_paths"`
+				Env          map[string]string `json:"env"`
 			}
 			if err := json.Unmarshal(raw, &a); err != nil {
 				return map[string]any{"bad": err.Error()}
 			}
-			req := core.LoadReq{Files: map[string]string{}, ProjectName: "p", SkipValidation: !a.Validate, SkipInterpolation: true, SkipNormalization: !a.Normalize,
-				NoResolvePaths: true, SkipExtends: true, SkipInclude: true, SkipDefaultValues: a.SkipDefaults, SkipConsistencyCheck: true}
+			req := core.LoadReq{Files: map[string]string{}, ProjectName: "p", SkipValidation: !a.Validate, SkipInterpolation: !a.Interpolate, Env: a.Env, SkipNormalization: !a.Normalize,
+				NoResolvePaths: !a.ResolvePaths, SkipExtends: true, SkipInclude: true, SkipDefaultValues: a.SkipDefaults, SkipConsistencyCheck: true}
 			for i, d := range a.Docs {
 				name := fmt.Sprintf("f%d.yml", i)
 				req.Files[name] = toYAML(core.DecodeValRaw(d))
@@ -58,16 +66,35 @@ func init() {
 				return map[string]any{"bad": "materialize: " + err.Error()}
 			}
 			dict, err := loader.LoadModelWithContext(context.Background(), req.Details(root), c01Options(req))
+			home, _ := os.UserHomeDir()
 			if err != nil {
-				return map[string]any{"err": "err"}
+				return map[string]any{"err": "err", "wd": root, "home": home}
 			}
-			return map[string]any{"ok": core.EncodeVal(dict)}
+			return map[string]any{"ok": core.EncodeVal(dict), "wd": root, "home": home}
 		},
 		DriverOp: "c01pipe",
-		DriverArgs: func(args, _ json.RawMessage) any {
+		DriverArgs: func(args, real json.RawMessage) any {
 			var a map[string]any
 			json.Unmarshal(args, &a)
+			var rr struct{ Wd, Home string }
+			json.Unmarshal(real, &rr)
+			a["wd"], a["home"] = rr.Wd, rr.Home // the working directory is the materialised root of THIS execution
 			a["pats"] = loader.VerifOmitEmptyPatterns()
+			// the float parser is an opaque parameter of C08's model: rendered here on every substituted string leaf
+			env := map[string]string{}
+			if e, ok := a["env"].(map[string]any); ok {
+				for k, v := range e {
+					env[k] = fmt.Sprint(v)
+				}
+			}
+			lookup := func(k string) (string, bool) { v, ok := env[k]; return v, ok }
+			f64, f32 := map[string]string{}, map[string]string{}
+			if docs, ok := a["docs"].([]any); ok {
+				for _, d := range docs {
+					pipeFloatTables(core.DecodeVal(d), lookup, f64, f32)
+				}
+			}
+			a["f64"], a["f32"] = f64, f32
 			return a
 		},
 		Judge: func(args, real, drv json.RawMessage) *core.Verdict {
@@ -99,6 +126,48 @@ func init() {
 			return nil
 		},
 	})
+}
+
+func pipeRefFloat(s string, bits int) (float64, bool) {
+	plain := strings.ReplaceAll(s, "_", "")
+	if i, err := strconv.ParseInt(plain, 0, 64); err == nil {
+		return float64(i), true
+	}
+	if u, err := strconv.ParseUint(plain, 0, 64); err == nil {
+		return float64(u), true
+	}
+	if f, err := strconv.ParseFloat(plain, bits); err == nil {
+		return f, true
+	}
+	if f, err := strconv.ParseFloat(s, bits); err == nil {
+		return f, true
+	}
+	return 0, false
+}
+
+// the same rendering of the float parser as C08's harness (harness/p/c08: refFloat / floatTables)
+func pipeFloatTables(v any, lookup template.Mapping, f64, f32 map[string]string) {
+	switch x := v.(type) {
+	case string:
+		s, err := template.Substitute(x, lookup)
+		if err != nil {
+			return
+		}
+		if f, ok := pipeRefFloat(s, 64); ok {
+			f64[s] = strconv.FormatFloat(f, 'g', -1, 64)
+		}
+		if f, ok := pipeRefFloat(s, 32); ok {
+			f32[s] = strconv.FormatFloat(float64(float32(f)), 'g', -1, 32)
+		}
+	case map[string]any:
+		for _, e := range x {
+			pipeFloatTables(e, lookup, f64, f32)
+		}
+	case []any:
+		for _, e := range x {
+			pipeFloatTables(e, lookup, f64, f32)
+		}
+	}
 }
 
 // split a document over n files: top-level sections and services dealt round-robin (merging them gives the document back)
@@ -154,7 +223,17 @@ func c01Pipe(ctx *core.Ctx, sch *c01Schema, rich M) {
 		ctx.Count(fmt.Sprintf("pipe-validate-%v", validate))
 		normalize := ctx.Rng.Intn(3) == 0
 		ctx.Count(fmt.Sprintf("pipe-normalize-%v", normalize))
-		ctx.Add("c01pipe", pipeArgs{Docs: c01SplitDoc(ctx, doc, n), SkipDefaults: skipDef, Validate: validate, Normalize: normalize})
+		interpolate := ctx.Rng.Intn(3) == 0
+		var env map[string]string
+		if interpolate {
+			// only names that no `environment:` entry, secret or config of the generators refers to: ResolveEnvironment
+			// (a parameter of the composition, the identity here) must have nothing to resolve
+			env = []map[string]string{{}, {"V": "x"}, {"V": "1", "W": "w"}, {"V": ""}}[ctx.Rng.Intn(4)]
+		}
+		resolve := ctx.Rng.Intn(3) == 0
+		ctx.Count(fmt.Sprintf("pipe-resolvePaths-%v", resolve))
+		ctx.Count(fmt.Sprintf("pipe-interpolate-%v", interpolate))
+		ctx.Add("c01pipe", pipeArgs{Docs: c01SplitDoc(ctx, doc, n), SkipDefaults: skipDef, Validate: validate, Normalize: normalize, Interpolate: interpolate, Env: env, ResolvePaths: resolve})
 	}
 	emit(c01DeepCopy(rich).(M), "rich")
 	emit(c01DeepCopy(rich).(M), "rich")
